@@ -50,7 +50,8 @@ class C14(Prop):
     theorems = ["NV.C14.model_satisfies_spec", "NV.C14.ring_inv", "NV.C14.ring_indices_in_bounds",
                 "NV.C14.chunk_in_bounds", "NV.C14.no_fault", "NV.C14.write_interest_when_pending",
                 "NV.C14.N_two_le", "NV.C14.only_tail_lost", "NV.C14.write_stores_prefix_image",
-                "NV.C14.sent_then_ring_is_stored"]
+                "NV.C14.sent_then_ring_is_stored", "NV.C14.delivered_is_ordered_prefix_image",
+                "NV.C14.delivered_texts"]
     consts = [("messageBufSize", "MESSAGE_BUF_SIZE")]
     const_headers = ["src/comm.h"]
     quick_n = 250
